@@ -266,7 +266,7 @@ def _make_solver(case, counters=None):
     if case.get('cap') is not None:
         s.MaxIterations = int(case['cap'])
     if case.get('tol_param') is not None:
-        s.ParameterErrorTolerance = float(case['tol_param'])
+        s.ParameterErrorTolerance = case['tol_param']       # as given: 0 (int) and 0.0 are different objects
     return s
 
 
@@ -332,6 +332,7 @@ def observe(case, whole=True):
             sweeps = len(its)
             errs = list(tr['iteration_error'])
             err_nan = any(isinstance(x, float) and math.isnan(x) for x in errs)
+            met_tol = True
             if exc is None and sweeps > 0:
                 last = {}
                 for key in tr.keys():
@@ -342,9 +343,12 @@ def observe(case, whole=True):
                 final_err = recompute_error(P.Endogenous, last, dict(func_impl(e) for e in case['funcs']))
                 if isinstance(final_err, float) and math.isnan(final_err):
                     err_nan = True
+                # did the last sweep meet the tolerance that was REQUESTED for this run?
+                met_tol = bool(finite(final_err) and Fraction(final_err) <= Fraction(tolerance_of(case)))
         else:
             sweeps = max([c.n for c in counters.values()] or [0])
             err_nan = False
+            met_tol = True            # not observable without the step trace
         reported = [ts[v][k] for v in nonexo if len(ts[v]) > k]
         fin_ok = all(finite(x) for x in reported)
         if not use_trace and exc is None and not fin_ok:
@@ -352,7 +356,8 @@ def observe(case, whole=True):
         ev = {'ev': 'Step', 'k': k, 'sweeps': int(sweeps), 'cap': cap, 'horizon': horizon,
               'exit': 'converged' if exc is None else exc_class(exc),
               'errNaN': bool(err_nan), 'finite': bool(fin_ok), 'traced': bool(use_trace),
-              'tol_ge1': bool(tolerance_of(case) >= 1.0),
+              'tol_ge1': bool(tolerance_of(case) >= 1.0), 'tol_zero': bool(tolerance_of(case) == 0.0),
+              'met_tol': bool(met_tol),
               'resid_ok': True, 'deco_exact': True, 'lag_exact': True, 'exo_exact': True, 'undef': False,
               'len_sim': cl(sim), 'len_lag': cl(lag), 'len_deco': cl(deco),
               'len_min': min(lens), 'len_max': max(lens),
@@ -415,7 +420,7 @@ def observe(case, whole=True):
     return events
 
 
-TLA_STEP_FIELDS = ('ev', 'k', 'sweeps', 'cap', 'horizon', 'exit', 'errNaN', 'finite', 'traced', 'resid_ok', 'undef', 'tol_ge1',
+TLA_STEP_FIELDS = ('ev', 'k', 'sweeps', 'cap', 'horizon', 'exit', 'errNaN', 'finite', 'traced', 'resid_ok', 'undef', 'tol_ge1', 'tol_zero', 'met_tol',
                    'deco_exact', 'lag_exact', 'exo_exact', 'len_sim', 'len_lag', 'len_deco', 'len_min', 'len_max',
                    'prefix_intact', 'exp_n', 'returned')
 TLA_FINISH_FIELDS = ('ev', 'returned', 'contractive', 'exc', 'horizon', 'whole_equal', 'steps', 'lens_ok',
@@ -482,6 +487,16 @@ def scenario(beh, variant=('last', 'div')):
     eqs, lags, ics, exos = c['eqs'], c['lags'], c['ics'], c['exos']
     position, errkind = variant
     big = bool(attempts[0]['big'])
+    zero = bool(attempts[0].get('zero'))
+    if zero:
+        # a requested tolerance of exactly 0: on the solver (float / int) or in the block
+        how = (P * 5 + int(attempts[-1]['n']) + len(beh['final'])) % 4
+        if how == 0:
+            c['tol_param'] = 0.0
+        elif how == 1:
+            c['tol_param'] = 0
+        else:
+            c['tol_line'] = '0' if how == 2 else '0.0'
     if big:
         # tolerance >= 1: rotated over the values and the two ways of stating it
         idx = (P * 7 + int(periods[-1]['n']) * 3 + len(beh['final'])) % 6
@@ -514,6 +529,8 @@ def scenario(beh, variant=('last', 'div')):
         n = int(rec['n'])
         fail_here = failing and i == P - 1
         if not fail_here:
+            d = n - 1
+        elif rec['last'] == 'approx' and not rec.get('zero'):
             d = n - 1
         elif rec['last'] == 'converge' or rec['last'] == 'everr_le':
             d = n - 1
@@ -549,6 +566,16 @@ def scenario(beh, variant=('last', 'div')):
                  [sname, [sigma if k < p else 0.0 for k in range(H + 1)]]]
 
     exp = [int(r['n']) + (1 if r['last'] == 'other' else 0) for r in attempts]      # sweeps started, per attempt
+    # "approx": a slowly converging variable is displaced by 1e-9 in that period, so the error of the sweeps
+    # is about 5e-10 / 2^j: within every tolerance in use, never exactly 0 within the cap
+    approx_at = [int(r['k']) for r in periods if r['last'] == 'approx']
+    if approx_at:
+        cs = [1.0]
+        for k in range(1, H + 1):
+            cs.append(cs[-1] + (1e-9 if k in approx_at else 0.0))
+        eqs.append(['sl', '0.5*sl + cs'])
+        ics.append(['sl', '2.0'])
+        exos.append(['cs', cs])
     if osc_at and not (failing and last['last'] in ('notyet', 'everr_gt')):
         eqs.append(['o', 'a*o + 1'])
         ics.append(['o', '1.0'])
@@ -634,6 +661,15 @@ def scenario_realisable(beh):
     for r in attempts:
         if int(r['n']) > 4:
             return False
+        if r['last'] == 'approx':
+            if r['tr'] or r['big']:
+                return False
+            if r.get('zero'):
+                # never exactly stationary: the period runs into the cap
+                if r['exit'] != 'raised_convergence' or int(r['n']) != int(r['cap']) + 1:
+                    return False
+            elif r['exit'] == 'raised_convergence' and int(r['n']) != int(r['cap']) + 1:
+                return False
     n_att = len(attempts)
     for i, r in enumerate(attempts):
         retried_next = i + 1 < n_att and attempts[i + 1]['k'] == r['k']
@@ -899,6 +935,14 @@ def classics():
                     exos=[['e1', [5.0, 50.0, -20.0, 400.0]]], maxtime=3, lam=0.5, reduction=red, **kw)
                 add('bigtol-lag', [('x', '0.5*LAG_x + 0.25*x + 100')], lags=[['LAG_x', 'x']], maxtime=3, lam=0.25,
                     reduction=red, **kw)
+    # a requested tolerance of exactly zero (and a denormal-small one), on the solver and in the block
+    for kw in ({'tol_param': 0.0}, {'tol_param': 0}, {'tol_line': '0'}, {'tol_line': '0.0'}, {'tol_param': 1e-300},
+               {'tol_line': '1e-300'}):
+        for red in (True, False):
+            add('zerotol-two', [('x', '0.5*x + y'), ('y', '0.25*x + 1.')], maxtime=2, lam=1.5, reduction=red, **kw)
+            add('zerotol-exact', [('x', '0.5*x + 1')], maxtime=2, lam=0.5, reduction=red, **kw)
+            add('zerotol-lag', [('x', '0.5*LAG_x + 3'), ('d', '2*x')], lags=[['LAG_x', 'x']], maxtime=3, lam=0.0,
+                reduction=red, **kw)
     add('cap0-trivial', [('x', '5.0')], maxtime=2, lam=0.0, cap=0)
     add('cap0-trivial-off', [('x', '5.0')], maxtime=2, lam=0.0, cap=0, reduction=False)
     add('userfn', [('x', '0.5*sat(x) + 1 + 0.1*y'), ('y', '0.3*x + 2')], maxtime=3, lam=0.6, funcs=['sat'],
@@ -1071,6 +1115,10 @@ def signature(clause, case, events):
         return 'no-sweep-at-tolerance-ge-1'
     if clause == 'C02_Residual' and any(e.get('undef') for e in steps):
         return 'equation-undefined-at-reported-values'
+    if clause == 'C11_ToleranceHonoured':
+        if any(e.get('tol_zero') for e in steps):
+            return 'requested-zero-tolerance-not-honoured'
+        return 'requested-tolerance-not-honoured'
     if clause == 'C11_EqualLengthsAfterFailure':
         f = failing_step(events)
         if f is not None and f['len_sim'] > f['len_deco'] and f['len_sim'] == f['k'] + 1:
@@ -1114,8 +1162,9 @@ def signature(clause, case, events):
 def tlc_behaviours(rep, core, tier):
     """exhaustive TLC runs of the control instance; returns the distinct maximal behaviours"""
     # MC_Solver_retry.cfg: the caller-level Retry (small alphabet, Cap 1), in both tiers
-    cfgs = ['MC_Solver_quick.cfg', 'MC_Solver_retry.cfg'] if tier == 'quick' else \
-        ['MC_Solver_quick.cfg', 'MC_Solver_retry.cfg', 'MC_Solver_thorough.cfg']
+    # MC_Solver_zero.cfg: a requested tolerance of exactly 0 and the sweep outcome "approx"
+    cfgs = ['MC_Solver_quick.cfg', 'MC_Solver_retry.cfg', 'MC_Solver_zero.cfg'] if tier == 'quick' else \
+        ['MC_Solver_quick.cfg', 'MC_Solver_retry.cfg', 'MC_Solver_zero.cfg', 'MC_Solver_thorough.cfg']
     seen = {}
     for cfg in cfgs:
         res = core.tlc('MC_Solver', cfg, workers=1, tag=rep.prop.lower())
@@ -1387,7 +1436,8 @@ def harvested_events(rec):
         fin_ok = all(finite(x) for x in reported) and len(reported) == len(nonexo)
         ev = {'ev': 'Step', 'k': k, 'sweeps': -1, 'cap': int(rec['max_iterations']), 'horizon': H,
               'exit': 'converged', 'errNaN': not fin_ok, 'finite': bool(fin_ok), 'traced': False,
-              'tol_ge1': bool(tol is not None and tol >= 1.0),
+              'tol_ge1': bool(tol is not None and tol >= 1.0), 'tol_zero': bool(tol is not None and tol == 0.0),
+              'met_tol': True,
               'resid_ok': True, 'deco_exact': True, 'lag_exact': True, 'exo_exact': True, 'undef': False,
               'len_sim': k + 1, 'len_lag': k + 1, 'len_deco': k + 1, 'len_min': k + 1, 'len_max': k + 1,
               'prefix_intact': True, 'exp_n': -1, 'returned': True, 'lam': round(case['lam'], 6)}
